@@ -262,6 +262,14 @@ def run(tier='quick', seed=0, only=None, verbose=False):
             rep.inconcl(dict(key=job['key'], equation=r['eq'], **{k: str(x)[:300] for k, x in i.items()}))
         if verbose:
             print(job['key'], r['eq'], [o['verdict'] for o in r.get('obligations', [])], r.get('eval_verdict'))
+    # the same power written ^ / ** / spaced / parenthesised where the equation text is rewritten (input fed by two
+    # operators of the node)
+    from .. import families, tvjobs
+    fj = [dict(key=f"{k}|vec={v}", spec=sp, vectorize=v, backend='default') for k, sp in families.fam_fanin_pow()
+          for v in (True, False)]
+    if only:
+        fj = [j for j in fj if only in j['key']]
+    tvjobs.run_tv_jobs(rep, fj, verbose=verbose)
     if not only or 'crosshair' in only:
         ch.consume(rep, 'pyverif.chh.c05_strings', timeout=120 if tier == 'quick' else 400)
     return rep.finish(rule='program = random expression tree (depth, functions, identifier pool) rendered with random '
